@@ -15,12 +15,10 @@
 package main
 
 import (
-	"bytes"
 	"flag"
 	"fmt"
 	"go/ast"
 	"go/parser"
-	"go/printer"
 	"go/token"
 	"math"
 	"os"
@@ -37,12 +35,10 @@ func die(format string, a ...any) {
 	os.Exit(1)
 }
 
+// text: the node in the normal form of astnorm_gen.go (blanks collapsed, function-local identifiers
+// under canonical names v<k>)
 func text(n ast.Node) string {
-	var b bytes.Buffer
-	if err := printer.Fprint(&b, fset, n); err != nil {
-		die("print: %v", err)
-	}
-	return strings.Join(strings.Fields(b.String()), " ")
+	return CanonPrint(fset, n)
 }
 
 func parseFile(path string) *ast.File {
@@ -50,6 +46,11 @@ func parseFile(path string) *ast.File {
 	if err != nil {
 		die("parse %s: %v", path, err)
 	}
+	// behaviour-preserving normal form: see astnorm_gen.go. Named constants of the same file are
+	// replaced by their literal (limits may be spelled `maxLen` or `24`)
+	o := AllNorm
+	o.InlineConsts = true
+	NormalizeFile(fset, f, o)
 	return f
 }
 
@@ -71,7 +72,11 @@ func recvVar(fd *ast.FuncDecl) string {
 	if fd.Recv == nil || len(fd.Recv.List) == 0 || len(fd.Recv.List[0].Names) == 0 {
 		return ""
 	}
-	return fd.Recv.List[0].Names[0].Name
+	id := fd.Recv.List[0].Names[0]
+	if c, ok := astnormCanon[id.Obj]; ok {
+		return c // text() prints the receiver under its canonical name
+	}
+	return id.Name
 }
 
 // ---------------------------------------------------------------------------- skeleton
@@ -376,19 +381,57 @@ func collectEnums(prefix, recv string, body ast.Node) {
 	})
 }
 
+func isObj(e ast.Expr, o *ast.Object) bool {
+	id, ok := e.(*ast.Ident)
+	return ok && o != nil && id.Obj == o
+}
+
+// serveMuxVar: the variable that holds the result of http.NewServeMux() (whatever it is called)
+func serveMuxVar(body ast.Node) *ast.Object {
+	var obj *ast.Object
+	ast.Inspect(body, func(n ast.Node) bool {
+		as, ok := n.(*ast.AssignStmt)
+		if !ok || len(as.Lhs) != 1 || len(as.Rhs) != 1 {
+			return true
+		}
+		if ce, ok := as.Rhs[0].(*ast.CallExpr); ok && rawPrint(fset, ce.Fun) == "http.NewServeMux" {
+			if id, ok := as.Lhs[0].(*ast.Ident); ok && obj == nil {
+				obj = id.Obj
+			}
+		}
+		return true
+	})
+	return obj
+}
+
+// isRouteCall: <mux>.Handle(…) / <mux>.HandleFunc(…)
+func isRouteCall(c *ast.CallExpr, mux *ast.Object) bool {
+	sel, ok := c.Fun.(*ast.SelectorExpr)
+	if !ok || mux == nil || (sel.Sel.Name != "Handle" && sel.Sel.Name != "HandleFunc") {
+		return false
+	}
+	id, ok := sel.X.(*ast.Ident)
+	return ok && id.Obj == mux
+}
+
 // ---------------------------------------------------------------------------- paging arithmetic
 
 func translateSlice(fd *ast.FuncDecl) (lo, hi string) {
 	var target *ast.AssignStmt
 	var block *ast.BlockStmt
+	var results, request *ast.Object // the re-sliced result list; the request parameter (first parameter)
+	if ps := fd.Type.Params.List; len(ps) > 0 && len(ps[0].Names) > 0 {
+		request = ps[0].Names[0].Obj
+	}
 	ast.Inspect(fd.Body, func(n ast.Node) bool {
 		if b, ok := n.(*ast.BlockStmt); ok {
 			for _, st := range b.List {
 				if as, ok := st.(*ast.AssignStmt); ok && as.Tok == token.ASSIGN && len(as.Lhs) == 1 && len(as.Rhs) == 1 {
-					if id, ok := as.Lhs[0].(*ast.Ident); ok && id.Name == "finalResults" {
+					// the paging statement re-slices a variable into itself: r = r[lo:hi] (the last one counts)
+					if id, ok := as.Lhs[0].(*ast.Ident); ok && id.Obj != nil {
 						if se, ok := as.Rhs[0].(*ast.SliceExpr); ok {
-							if x, ok := se.X.(*ast.Ident); ok && x.Name == "finalResults" {
-								target, block = as, b
+							if x, ok := se.X.(*ast.Ident); ok && x.Obj == id.Obj {
+								target, block, results = as, b, id.Obj
 							}
 						}
 					}
@@ -398,16 +441,16 @@ func translateSlice(fd *ast.FuncDecl) (lo, hi string) {
 		return true
 	})
 	if target == nil {
-		die("Shard.SearchPoints: no `finalResults = finalResults[lo:hi]` statement found")
+		die("Shard.SearchPoints: no `results = results[lo:hi]` statement found")
 	}
-	env := map[string]ast.Expr{}
+	env := map[*ast.Object]ast.Expr{}
 	for _, st := range block.List {
 		if st == ast.Stmt(target) {
 			break
 		}
 		if as, ok := st.(*ast.AssignStmt); ok && as.Tok == token.DEFINE && len(as.Lhs) == 1 && len(as.Rhs) == 1 {
-			if id, ok := as.Lhs[0].(*ast.Ident); ok {
-				env[id.Name] = as.Rhs[0]
+			if id, ok := as.Lhs[0].(*ast.Ident); ok && id.Obj != nil {
+				env[id.Obj] = as.Rhs[0]
 			}
 		}
 	}
@@ -424,20 +467,22 @@ func translateSlice(fd *ast.FuncDecl) (lo, hi string) {
 				return "(" + x.Value + "#64)"
 			}
 		case *ast.Ident:
-			if d, ok := env[x.Name]; ok {
+			if d, ok := env[x.Obj]; ok && x.Obj != nil {
 				return tr(d, depth+1)
 			}
 		case *ast.SelectorExpr:
-			switch text(x) {
-			case "searchRequest.Offset":
-				return "off"
-			case "searchRequest.Limit":
-				return "lim"
+			if r, ok := x.X.(*ast.Ident); ok && r.Obj != nil && r.Obj == request {
+				switch x.Sel.Name {
+				case "Offset":
+					return "off"
+				case "Limit":
+					return "lim"
+				}
 			}
 		case *ast.CallExpr:
 			if id, ok := x.Fun.(*ast.Ident); ok {
 				switch {
-				case id.Name == "len" && len(x.Args) == 1 && text(x.Args[0]) == "finalResults":
+				case id.Name == "len" && len(x.Args) == 1 && isObj(x.Args[0], results):
 					return "n"
 				case (id.Name == "min" || id.Name == "max") && len(x.Args) == 2:
 					return "(s" + id.Name + " " + tr(x.Args[0], depth+1) + " " + tr(x.Args[1], depth+1) + ")"
@@ -596,16 +641,22 @@ func main() {
 		if !ok || fd.Name.Name != "setupRouter" {
 			continue
 		}
+		mux := serveMuxVar(fd.Body)
 		ast.Inspect(fd.Body, func(n ast.Node) bool {
 			switch s := n.(type) {
 			case *ast.AssignStmt:
-				if len(s.Lhs) == 1 && len(s.Rhs) == 1 && text(s.Lhs[0]) == "handler" {
-					if ce, ok := s.Rhs[0].(*ast.CallExpr); ok {
-						chain = append(chain, text(ce.Fun))
+				// a link of the middleware chain wraps the handler variable into itself: h = f(…, h)
+				if s.Tok == token.ASSIGN && len(s.Lhs) == 1 && len(s.Rhs) == 1 {
+					if ce, ok := s.Rhs[0].(*ast.CallExpr); ok && len(ce.Args) > 0 {
+						l, okl := s.Lhs[0].(*ast.Ident)
+						a, oka := ce.Args[len(ce.Args)-1].(*ast.Ident)
+						if okl && oka && l.Obj != nil && l.Obj == a.Obj {
+							chain = append(chain, text(ce.Fun))
+						}
 					}
 				}
 			case *ast.CallExpr:
-				if text(s.Fun) == "mux.Handle" || text(s.Fun) == "mux.HandleFunc" {
+				if isRouteCall(s, mux) {
 					routes = append(routes, "root "+text(s))
 				}
 			}
@@ -622,8 +673,9 @@ func main() {
 			if !ok || !strings.HasPrefix(fd.Name.Name, "Setup") {
 				continue
 			}
+			mux := serveMuxVar(fd.Body)
 			ast.Inspect(fd.Body, func(n ast.Node) bool {
-				if s, ok := n.(*ast.CallExpr); ok && (text(s.Fun) == "mux.Handle" || text(s.Fun) == "mux.HandleFunc") {
+				if s, ok := n.(*ast.CallExpr); ok && isRouteCall(s, mux) {
 					routes = append(routes, v+" "+text(s))
 				}
 				return true
@@ -712,7 +764,11 @@ func main() {
 	}
 	b.WriteString("\n/-! accepted string constants -/\n")
 	for _, n := range enumOrder {
-		emitList("enum_"+n, "accepted values", enums[n])
+		// a set: the order of the alternatives in the source (cases of a switch, operands of a
+		// chain of comparisons) carries no meaning, the list is emitted sorted
+		vals := append([]string(nil), enums[n]...)
+		sort.Strings(vals)
+		emitList("enum_"+n, "accepted values (sorted)", vals)
 	}
 	b.WriteString("/-! paging arithmetic of Shard.SearchPoints: `finalResults[sliceLo : sliceHi]`, Go int = BitVec 64 -/\n")
 	b.WriteString("def smin (a b : BitVec 64) : BitVec 64 := if a.slt b then a else b\n")
